@@ -432,7 +432,7 @@ class Generator:
                 raise Undecided("async fn without `unasync`")
             common.append((sig["asyncness"][0], sig["asyncness"][1], ""))
             self.log.append({"rule": "R-AWAIT", "site": site, "what": "async removed"})
-        if spec.unasync:
+        if spec.unasync and not spec.external:
             n = 0
             for c in it["calls"]:
                 if c["name"] == "await":
@@ -461,19 +461,19 @@ class Generator:
             common.append((sig["ret"][0], sig["ret"][0], "(%s: " % spec.ret))
             common.append((sig["ret"][1], sig["ret"][1], ")"))
         # cfg'd statements
-        for c in it["cfgs"]:
+        for c in ([] if spec.external else it["cfgs"]):
             if 'feature="tracing"' in c["cfg"]:
                 common.append((c["span"][0], c["span"][1], ""))
                 self.log.append({"rule": "R-DROP", "site": site, "what": "statement under #[%s]" % c["cfg"]})
             else:
                 raise Undecided("statement under #[%s] is outside R-DROP" % c["cfg"])
         # panics
-        for m in it["macros"]:
+        for m in ([] if spec.external else it["macros"]):
             if m["name"] == "panic" and spec.panic is not None:
                 common.append((m["span"][0], m["span"][1], "{ proof { assert(%s); } diverge() }" % spec.panic))
                 self.log.append({"rule": "R-PANIC", "site": site})
         # wild closure params
-        for k, c in enumerate(it["closures"]):
+        for k, c in enumerate([] if spec.external else it["closures"]):
             for pi, p in enumerate(c["params"]):
                 if p["wild"]:
                     common.append((p["span"][0], p["span"][1], "_w%d_%d" % (k + 1, pi)))
